@@ -53,9 +53,16 @@ def real_oracle(prog, out):
     if not main:
         return [("driver_incomplete", f"{out[-2:]}")]
     m = main[0]
-    plan = prog["plan"][0]
-    key = plan["point"] + ".worker"
-    fired = len(m["hits"].get(key, [])) >= plan["nth"]
+    if prog.get("ext_kill"):
+        # no fault plan: an idle worker was killed from outside after the tasks had completed
+        plan = {"point": "external", "nth": 1, "action": f"kill:{prog['ext_kill']['sig']}"}
+        key = None
+        fired = m.get("ext_killed") is not None
+        m = dict(m, hits_before_probe={None: [1]} if fired else {})
+    else:
+        plan = prog["plan"][0]
+        key = plan["point"] + ".worker"
+        fired = len(m["hits"].get(key, [])) >= plan["nth"]
     unannounced = fired and plan["point"] != "worker.announced"
     for i, o in enumerate(m["outcomes"]):
         if o == ["TIMEOUT"]:
@@ -123,6 +130,11 @@ def real_shard(seed, n, tier="quick"):
             timeout = 0.3
         prog = {"workers": workers, "timeout": timeout, "tasks": [list(x) for x in tasks], "gap": gap,
                 "idle": 1.2 if timeout == 0.3 else 0, "plan": [{"point": point, "role": "worker", "nth": nth, "action": action}]}
+        if tree is None and reap_nth == 3 and timeout in (None, 20):
+            # instead of a fault point inside a worker: an idle worker is killed from outside once the tasks are done
+            prog["plan"] = []
+            prog["ext_kill"] = {"which": nth, "sig": 9 if action != "kill:11" else 11}
+            point = "external"
         if tree is not None:
             # the helpers' worker takes the first task; a later task's worker is the one that dies
             prog["workers"] = max(2, workers)
@@ -143,7 +155,7 @@ def real_shard(seed, n, tier="quick"):
             else:
                 raise HarnessError(f"C02 real driver incomplete rc={res['rc']}: {res['err'][-800:]} prog={prog}")
         main = [o for o in res["out"] if "outcomes" in o]
-        fired = bool(main) and len(main[0]["hits"].get(point + ".worker", [])) >= nth
+        fired = bool(main) and (len(main[0]["hits"].get(point + ".worker", [])) >= nth or main[0].get("ext_killed") is not None)
         if not fails:
             acc.case(case, fired)
             acc.count("real_fault_cases")
